@@ -12,6 +12,7 @@ import (
 	"reflect"
 	"sort"
 	"strconv"
+	"strings"
 	"time"
 
 	"pgregory.net/rapid"
@@ -90,7 +91,7 @@ func (k *Kind) CanonRaw(raw interface{}) (string, error) {
 		}
 		return Null, nil
 	}
-	if k.Group == "serializer" {
+	if strings.HasPrefix(k.Group, "serializer") {
 		// a reader that deserialises hands back the field's Go value rather than the stored form
 		if rv := reflect.ValueOf(raw); rv.Type() == k.Type {
 			return k.canon(rv), nil
@@ -292,7 +293,8 @@ func intKind(name string, typ reflect.Type, bits int) *Kind {
 		return v
 	}
 	k.Defaults = []Default{{Tag: "42", Canon: cInt(42), DB: false}, {Tag: "-7", Canon: cInt(-7), DB: false}, {Tag: "0", Canon: cInt(0), DB: false}, {Tag: "(1+1)", Canon: cInt(2), DB: true}, {Tag: "(abs(-7))", Canon: cInt(7), DB: true}, {Tag: "null", Canon: cInt(0), DB: true},
-		{Tag: "0x10", Canon: cInt(16), NonCanonical: true}, {Tag: "+5", Canon: cInt(5), NonCanonical: true}}
+		{Tag: "NULL", Canon: cInt(0), DB: true},
+		{Tag: "0x10", Canon: cInt(16), NonCanonical: true}, {Tag: "+5", Canon: cInt(5), NonCanonical: true}, {Tag: "00", Canon: cInt(0), NonCanonical: true}}
 	if bits == 64 {
 		k.AutoTime = []string{"", "milli", "nano"}
 	} else if bits == 32 {
@@ -327,7 +329,8 @@ func uintKind(name string, typ reflect.Type, bits int) *Kind {
 		v.SetUint(uint64(i))
 		return v
 	}
-	k.Defaults = []Default{{Tag: "42", Canon: cUint(42), DB: false}, {Tag: "(1+1)", Canon: cUint(2), DB: true}, {Tag: "null", Canon: cUint(0), DB: true}}
+	k.Defaults = []Default{{Tag: "42", Canon: cUint(42), DB: false}, {Tag: "0", Canon: cUint(0)}, {Tag: "(1+1)", Canon: cUint(2), DB: true}, {Tag: "null", Canon: cUint(0), DB: true}, {Tag: "NULL", Canon: cUint(0), DB: true},
+		{Tag: "00", Canon: cUint(0), NonCanonical: true}}
 	if bits == 64 {
 		k.AutoTime = []string{"", "milli", "nano"}
 	} else if bits == 32 {
@@ -369,7 +372,8 @@ func floatKind(name string, typ reflect.Type, bits int) *Kind {
 		return v
 	}
 	k.Defaults = []Default{{Tag: "1.5", Canon: cFloat(1.5), DB: false}, {Tag: "-0.25", Canon: cFloat(-0.25), DB: false}, {Tag: "(1.5*2)", Canon: cFloat(3), DB: true}, {Tag: "null", Canon: cFloat(0), DB: true},
-		{Tag: "-1.50", Canon: cFloat(-1.5), NonCanonical: true}, {Tag: "1e3", Canon: cFloat(1000), NonCanonical: true}}
+		{Tag: "0", Canon: cFloat(0)}, {Tag: "NULL", Canon: cFloat(0), DB: true},
+		{Tag: "-1.50", Canon: cFloat(-1.5), NonCanonical: true}, {Tag: "1e3", Canon: cFloat(1000), NonCanonical: true}, {Tag: "0.0", Canon: cFloat(0), NonCanonical: true}, {Tag: ".5", Canon: cFloat(0.5), NonCanonical: true}}
 	return k
 }
 
@@ -383,7 +387,8 @@ func boolKind() *Kind {
 	k.canonRaw = rawBool
 	k.dbValue = func(v reflect.Value) interface{} { return v.Bool() }
 	k.distinct = func(i int) reflect.Value { return reflect.ValueOf(true) }
-	k.Defaults = []Default{{Tag: "true", Canon: cBool(true), DB: false}, {Tag: "false", Canon: cBool(false), DB: false}, {Tag: "(1=1)", Canon: cBool(true), DB: true}}
+	k.Defaults = []Default{{Tag: "true", Canon: cBool(true), DB: false}, {Tag: "false", Canon: cBool(false), DB: false}, {Tag: "(1=1)", Canon: cBool(true), DB: true},
+		{Tag: "0", Canon: cBool(false)}, {Tag: "FALSE", Canon: cBool(false)}, {Tag: "1", Canon: cBool(true)}, {Tag: "null", Canon: cBool(false), DB: true}}
 	return k
 }
 
@@ -399,7 +404,9 @@ func stringKind() *Kind {
 	k.dbValue = func(v reflect.Value) interface{} { return v.String() }
 	k.distinct = func(i int) reflect.Value { return reflect.ValueOf(fmt.Sprintf("k'%d", i)) }
 	k.Defaults = []Default{{Tag: "'abc'", Canon: cStr("abc"), DB: false}, {Tag: "hello", Canon: cStr("hello"), DB: false}, {Tag: "'a b'", Canon: cStr("a b"), DB: false}, {Tag: "'a,b'", Canon: cStr("a,b"), DB: false},
-		{Tag: "('a'||'b')", Canon: cStr("ab"), DB: true}, {Tag: "null", Canon: cStr(""), DB: true}}
+		{Tag: "''", Canon: cStr("")}, {Tag: `\"\"`, Canon: cStr("")}, {Tag: "' '", Canon: cStr(" ")}, {Tag: "'x y z'", Canon: cStr("x y z")},
+		{Tag: "'null'", Canon: cStr("null")}, {Tag: "'NULL'", Canon: cStr("NULL")}, {Tag: "'a null b'", Canon: cStr("a null b")}, {Tag: "'0'", Canon: cStr("0")}, {Tag: "'false'", Canon: cStr("false")},
+		{Tag: "('a'||'b')", Canon: cStr("ab"), DB: true}, {Tag: "null", Canon: cStr(""), DB: true}, {Tag: "NULL", Canon: cStr(""), DB: true}}
 	return k
 }
 
@@ -442,6 +449,7 @@ func timeKind() *Kind {
 	k.Defaults = []Default{
 		{Tag: "(datetime('2001-02-03 04:05:06'))", Canon: cTime(time.Date(2001, 2, 3, 4, 5, 6, 0, time.UTC)), DB: true},
 		{Tag: "null", Canon: cTime(time.Time{}), DB: true},
+		{Tag: "NULL", Canon: cTime(time.Time{}), DB: true},
 		{Tag: "2001-02-03 04:05:06", Canon: cTime(time.Date(2001, 2, 3, 4, 5, 6, 0, time.Local))},
 		{Tag: "CURRENT_TIMESTAMP", Canon: Any, DB: true},
 	}
@@ -490,8 +498,8 @@ func pointerKind(base *Kind) *Kind {
 	}
 	// a literal default fills a nil pointer; an expression default / NULL leaves NULL → nil unless returned
 	for _, d := range base.Defaults {
-		if d.Tag == "null" {
-			k.Defaults = append(k.Defaults, Default{Tag: "null", Canon: Null, DB: true})
+		if strings.EqualFold(d.Tag, "null") {
+			k.Defaults = append(k.Defaults, Default{Tag: d.Tag, Canon: Null, DB: true})
 		} else {
 			k.Defaults = append(k.Defaults, d)
 		}
@@ -861,6 +869,117 @@ func unixtimeKind(base *Kind, ptr bool) *Kind {
 	return k
 }
 
+// ---- kinds whose own type implements schema.SerializerInterface -------------------------------------
+
+func cSerDoc(d SerDoc) string {
+	if d.isZero() {
+		return Null
+	}
+	keys := make([]string, 0, len(d.Meta))
+	for k := range d.Meta {
+		keys = append(keys, k)
+	}
+	sort.Strings(keys)
+	s := fmt.Sprintf("sd:%q|%q|", d.Name, append([]string{}, d.Tags...))
+	for _, k := range keys {
+		s += fmt.Sprintf("%q=%d,", k, d.Meta[k])
+	}
+	if d.N != nil {
+		s += fmt.Sprintf("|n=%d", *d.N)
+	}
+	return s
+}
+
+func serDocKind() *Kind {
+	typ := reflect.TypeOf(SerDoc{})
+	k := &Kind{Name: "sertype:SerDoc", Group: "serializer-type", Type: typ, Family: FOpaque, Special: true, Nullable: true, ZeroCanon: Null}
+	k.gen = func(t *rapid.T, label string) (reflect.Value, bool) {
+		// every member is present in about half of the records, so consecutive rows differ in what they omit
+		var d SerDoc
+		if rapid.Bool().Draw(t, label+".hasname") {
+			d.Name, _ = genString(t, label+".name")
+		}
+		if rapid.Bool().Draw(t, label+".hastags") {
+			n := rapid.IntRange(1, 4).Draw(t, label+".ntags")
+			for i := 0; i < n; i++ {
+				d.Tags = append(d.Tags, rapid.StringMatching(`[a-z]{1,4}`).Draw(t, fmt.Sprintf("%s.tag%d", label, i)))
+			}
+		}
+		if rapid.Bool().Draw(t, label+".hasmeta") {
+			d.Meta = map[string]int{}
+			n := rapid.IntRange(1, 3).Draw(t, label+".nmeta")
+			for i := 0; i < n; i++ {
+				d.Meta[rapid.SampledFrom([]string{"a", "b", "c", "d"}).Draw(t, fmt.Sprintf("%s.mk%d", label, i))] = rapid.IntRange(-3, 3).Draw(t, fmt.Sprintf("%s.mv%d", label, i))
+			}
+		}
+		if rapid.Bool().Draw(t, label+".hasn") {
+			n := rapid.SampledFrom([]int{0, 1, -1, math.MaxInt32}).Draw(t, label+".n")
+			d.N = &n
+		}
+		return reflect.ValueOf(d), true
+	}
+	k.canon = func(v reflect.Value) string { return cSerDoc(v.Interface().(SerDoc)) }
+	k.canonRaw = func(raw interface{}) (string, error) {
+		s, ok := rawString(raw)
+		if !ok {
+			return "", fmt.Errorf("SerDoc column holds %T(%v)", raw, raw)
+		}
+		var d SerDoc
+		if err := json.Unmarshal([]byte(s), &d); err != nil {
+			return "", fmt.Errorf("SerDoc column holds %q: %v", s, err)
+		}
+		return cSerDoc(d), nil
+	}
+	k.dbValue = func(v reflect.Value) interface{} {
+		x, _ := v.Interface().(SerDoc).Value(nil, nil, reflect.Value{}, nil)
+		return x
+	}
+	k.distinct = func(i int) reflect.Value { return reflect.ValueOf(SerDoc{Name: fmt.Sprintf("d%d", i)}) }
+	return k
+}
+
+func cSerList(l SerList) string {
+	if l == nil {
+		return Null
+	}
+	return fmt.Sprintf("sl:%q", []string(l))
+}
+
+func serListKind() *Kind {
+	typ := reflect.TypeOf(SerList(nil))
+	k := &Kind{Name: "sertype:SerList", Group: "serializer-type", Type: typ, Family: FOpaque, Special: true, Nullable: true, ZeroCanon: Null}
+	k.gen = func(t *rapid.T, label string) (reflect.Value, bool) {
+		// lengths vary from record to record (a shorter list after a longer one)
+		n := rapid.IntRange(-1, 4).Draw(t, label+".len")
+		if n < 0 {
+			return reflect.ValueOf(SerList(nil)), true
+		}
+		l := SerList{}
+		for i := 0; i < n; i++ {
+			l = append(l, rapid.StringMatching(`[a-z]{1,4}`).Draw(t, fmt.Sprintf("%s.e%d", label, i)))
+		}
+		return reflect.ValueOf(l), true
+	}
+	k.canon = func(v reflect.Value) string { return cSerList(v.Interface().(SerList)) }
+	k.canonRaw = func(raw interface{}) (string, error) {
+		s, ok := rawString(raw)
+		if !ok {
+			return "", fmt.Errorf("SerList column holds %T(%v)", raw, raw)
+		}
+		var l SerList
+		if err := json.Unmarshal([]byte(s), &l); err != nil {
+			return "", fmt.Errorf("SerList column holds %q: %v", s, err)
+		}
+		return cSerList(l), nil
+	}
+	k.dbValue = func(v reflect.Value) interface{} {
+		x, _ := v.Interface().(SerList).Value(nil, nil, reflect.Value{}, nil)
+		return x
+	}
+	k.distinct = func(i int) reflect.Value { return reflect.ValueOf(SerList{fmt.Sprintf("e%d", i)}) }
+	return k
+}
+
 // ---- the kind table ----------------------------------------------------------------------------------
 
 var (
@@ -946,6 +1065,11 @@ var (
 	KUnixUint32   = unixtimeKind(KUint32, false)
 
 	Serializers = []*Kind{KJSONStrings, KJSONMap, KJSONDoc, KJSONPtrDoc, KGob, KGobBytes, KUnixInt64, KUnixInt, KUnixInt32, KUnixInt16, KUnixPtrInt64}
+	KSerDoc     = serDocKind()
+	KSerList    = serListKind()
+	// SerializerTypes: field types that implement schema.SerializerInterface themselves
+	SerializerTypes = []*Kind{KSerDoc, KSerList}
+
 	// UnixtimeUnsigned: `serializer:unixtime` over unsigned integers (the
 	// serializer's own message says "only int, uint supported").
 	UnixtimeUnsigned = []*Kind{KUnixUint, KUnixUint32}
@@ -960,6 +1084,7 @@ func AllKinds() []*Kind {
 	out = append(out, Customs...)
 	out = append(out, Serializers...)
 	out = append(out, UnixtimeUnsigned...)
+	out = append(out, SerializerTypes...)
 	return out
 }
 
